@@ -21,6 +21,12 @@ impl Debug for Frac {
 }
 
 impl Frac {
+    /// Numerator over the fixed denominator 12 (verification harness only).
+    #[cfg(datamatrix_verif)]
+    pub(crate) fn verif_raw(self) -> C {
+        self.0
+    }
+
     #[inline]
     pub fn new(num: C, denum: C) -> Self {
         let mut me = Self(0);
